@@ -13,11 +13,21 @@ for d in sorted(glob.glob('/verif/seeded/*/')):
     for k,v in m['checks_run'].items():
         caught.append("%s: %s (%ss)"%(k,'caught' if v['caught'] else 'missed',v.get('wall_s','?')))
     first=next((v['first_violation'] for v in m['checks_run'].values() if v['caught']),'')
-    rows.append((name,", ".join(files),"; ".join(funcs)[:90]," / ".join(caught),first[:150].replace('|','/')))
+    fr=m.get('final_run')
+    if not fr:
+        final='(not re-run)'
+    elif not fr.get('applies'):
+        final='patch no longer applies to /repo HEAD'
+    else:
+        final=" / ".join("%s: %s"%(r['check'],'caught' if r['caught'] else 'missed') for r in fr['runs'])
+        ff=next((r['first_violation'] for r in fr['runs'] if r['caught']),'')
+        if ff: first=ff
+    rows.append((name,str(m.get('round','')),", ".join(files),"; ".join(funcs)[:90]," / ".join(caught),final,first[:150].replace('|','/')))
 out=["# Mutation / seeded-change results","",
 "Two sources: (1) changes seeded by independent sub-agents that saw only the property text and a scratch checkout of ipld/go-storethehash (`/verif/seeded/<id>/`: patch.diff, demonstration test, notes.md, meta.json); every one was confirmed here in a scratch worktree (existing suite passes with the change; demonstration fails with it and passes without) before the checks were run against it on `/repo` itself (`git apply` ... `git checkout -- .`). (2) hand-written one-edit mutants from the 'Must catch' lists of DESIGN section 5 (`tools/mutants.py`, log in `MUTATION.log`).","",
-"## Seeded changes (sub-agents)","","| id | files | functions | checks run (quick tier) | first violation reported |","|---|---|---|---|---|"]
-for r in rows: out.append("| %s | %s | %s | %s | %s |"%r)
+"## Seeded changes (sub-agents)","","Column *when evaluated* is the outcome at the time the change came in (before any strengthening it led to; some early patches no longer applied after later `fix:` commits and have an adapted patch). Column *final harness* is the outcome of `tools/reeval.py`: the own property's check, quick tier, of the final harness against /repo HEAD (followed, if that missed, by the checks that had caught the change earlier).","",
+"| id | round | files | functions | when evaluated | final harness | first violation reported |","|---|---|---|---|---|---|---|"]
+for r in rows: out.append("| %s | %s | %s | %s | %s | %s | %s |"%r)
 out+=["","## Hand-written mutants","","```"]
 if os.path.exists('/verif/MUTATION.log'):
     seen={}
